@@ -47,6 +47,9 @@ def jobs(tier):
     nmax = 3
     for ns in range(0, nmax + 1):
         out.append({"ob": "O4", "cfg": {"nsetups": ns}})
+    # the two algorithm classes are parent and subclass ("identical types" is exact type identity, not isinstance)
+    for ns in range(2, nmax + 1):
+        out.append({"ob": "O4", "cfg": {"nsetups": ns, "sub": True}})
     return out
 
 
@@ -287,8 +290,10 @@ def run_poser(cfg, tier):
     class A:
         pass
 
-    class B:
+    class B(A if cfg.get("sub") else object):
         pass
+
+    sub = bool(cfg.get("sub"))
 
     def body():
         e = Explorer.cur
@@ -334,21 +339,21 @@ def run_poser(cfg, tier):
             why = "invalid configuration accepted"
         elif not ok and not isinstance(res, ValueError):
             why = f"invalid configuration raised {type(res).__name__} instead of ValueError"
-        lab = f"setups={desc} names={len(names)}"
-        tally.decide(e, z3.BoolVal(bool(why)), on_sat=lambda m, why=why, lab=lab: {"inputs": {"desc": desc, "names": names}, "reproduced":
-                     replay_poser(desc, names)[0], "detail": lab + ": " + str(why) + " | real: " + replay_poser(desc, names)[1],
+        lab = f"setups={desc} names={len(names)}" + (" (class 1 is a subclass of class 0)" if sub else "")
+        tally.decide(e, z3.BoolVal(bool(why)), on_sat=lambda m, why=why, lab=lab: {"inputs": {"desc": desc, "names": names, "sub": sub}, "reproduced":
+                     replay_poser(desc, names, sub)[0], "detail": lab + ": " + str(why) + " | real: " + replay_poser(desc, names, sub)[1],
                      "key": "MultiSetup_PoSER:validation"}, label=lab if why else "PoSER validation")
     r = tally.result(ex)
     return r
 
 
-def replay_poser(desc, names):
+def replay_poser(desc, names, sub=False):
     from pyoma2.setup import multi
 
     class A:
         pass
 
-    class B:
+    class B(A if sub else object):
         pass
     setups = []
     for d in desc:
@@ -380,5 +385,5 @@ def replay_poser(desc, names):
 
 def replay(ob, cfg, inputs):
     if ob == "O4":
-        return replay_poser(inputs["desc"], inputs["names"])
+        return replay_poser(inputs["desc"], inputs["names"], inputs.get("sub", False))
     return True, "deterministic finding on the real base classes (see detail in evidence)"
